@@ -115,6 +115,116 @@ ABSTRACT = {
 }
 
 
+BLST_ERROR = {"BLST_SUCCESS": 0, "BLST_BAD_ENCODING": 1, "BLST_POINT_NOT_ON_CURVE": 2, "BLST_POINT_NOT_IN_GROUP": 3, "BLST_AGGR_TYPE_MISMATCH": 4,
+              "BLST_VERIFY_FAIL": 5, "BLST_PK_IS_INFINITY": 6, "BLST_BAD_SCALAR": 7}
+
+
+def stm_registration(rep, tmo):
+    """mithril-stm side of the acceptance conjunction: KeyRegistration::register -> RegistrationEntry::new ->
+    verify_proof_of_possession (both halves) and register_by_entry (duplicate key), from a pre-state holding one key"""
+    from checks import c06
+    SRC2 = ["mithril-stm/src/protocol/key_registration/register.rs", "mithril-stm/src/protocol/key_registration/registration_entry.rs",
+            "mithril-stm/src/signature_scheme/bls_multi_signature/verification_key.rs"]
+    rep.functions.append("source hashes: %s" % core.source_hashes(SRC2))
+    failures = []
+    try:
+        path, dt = mir.dump("mithril-stm")
+        prog = MI.Program(open(path).read(), source_root=os.path.join(core.REPO, "mithril-stm"))
+        ctx = c06.Ctx(prog)
+        I = ctx.I
+        I.enum_tables["BLST_ERROR"] = dict(BLST_ERROR)
+        Int, Bool = z3.IntSort(), z3.BoolSort()
+        VALIDATE = z3.Function("blst_key_validates", Int, Bool)
+        K1 = z3.Function("pop_k1_is_a_signature_of_POP_under_key", Int, Int, Int)   # BLST_ERROR code
+        K2 = z3.Function("pop_k2_pairing_holds", Int, Int, Bool)
+
+        def models(I, st, caller, func, args, argtys, dest_ty):
+            f = MM.strip_std_paths(func)
+            if re.search(r"BlsVerificationKey::to_blst_verification_key$|BlsProofOfPossession::get_k1$|BlsProofOfPossession::get_k2$", f):
+                return MM.ret(st, MM.deref_all(I, st, args[0]))
+            if re.search(r"PublicKey::validate$", f):
+                k_ = MM.deref_all(I, st, args[0])
+                return MM.ret(st, EnumV("Result", z3.If(VALIDATE(k_.term), 0, 1), {0: (MI.UNIT,), 1: (EnumV("BLST_ERROR", 3, {}),)}))
+            if re.search(r"helper::unsafe_helpers::verify_pairing$|unsafe_helpers::verify_pairing$|^verify_pairing$", f):
+                k_, p_ = MM.deref_all(I, st, args[0]), MM.deref_all(I, st, args[1])
+                return MM.ret(st, K2(k_.term, p_.term))
+            if re.search(r"Signature::verify$", f):
+                p_ = MM.deref_all(I, st, args[0])
+                k_ = MM.deref_all(I, st, args[5])
+                d = K1(k_.term, p_.term)
+                st.assume(z3.And(d >= 0, d <= 7))
+                st.trace = st.trace + (("k1_verify", (args[1], args[2]), None),)
+                return MM.ret(st, EnumV("BLST_ERROR", d, {}))
+            m = re.match(r"^<BLST_ERROR as PartialEq>::(eq|ne)$", f)
+            if m:
+                a, b = MM.deref_all(I, st, args[0]), MM.deref_all(I, st, args[1])
+                da = a.discr if z3.is_expr(a.discr) else z3.IntVal(a.discr)
+                db_ = b.discr if z3.is_expr(b.discr) else z3.IntVal(b.discr)
+                return MM.ret(st, da == db_ if m.group(1) == "eq" else da != db_)
+            if re.search(r"blst_error_to_stm_error$", f):
+                return MM.ret(st, EnumV("Result", 1, {1: (Opaque("anyhow::Error"),)}))
+            return None
+        I.models = [models] + I.models
+        from mir2smt import symval
+        db = symval.TypeDB([os.path.join(core.REPO, "mithril-stm", "src")])
+        k0, s0 = z3.Int("registered_key"), z3.Int("registered_stake")
+        knew, pop, stake = z3.Int("new_key"), z3.Int("new_pop"), z3.Int("stake_argument")
+        st = MI.State()
+        st.assume(z3.And(s0 >= 0, s0 < 2 ** 64, stake >= 0, stake < 2 ** 64))
+        I.frame_counter += 1
+        kf = I.frame_counter
+        e0 = Agg("adt", "RegistrationEntry", (Abs("vk", k0), s0))
+        kr_fields = {"registration_entries": Agg("btreeset", None, (e0,)), "registered_keys_for_concatenation": Agg("hashset", None, (Abs("vk", k0),))}
+        st.mem[(kf, 0)] = Agg("adt", "KeyRegistration", tuple(kr_fields[n] for n, t in db.struct_fields("KeyRegistration")))
+        vkpop_fields = {"vk": Abs("vk", knew), "pop": Abs("vk", pop)}
+        I.frame_counter += 1
+        vf = I.frame_counter
+        st.mem[(vf, 0)] = Agg("adt", "BlsVerificationKeyProofOfPossession", tuple(vkpop_fields[n] for n, t in db.struct_fields("BlsVerificationKeyProofOfPossession")))
+        f_reg = prog.find_one(r"key_registration/register\.rs.*>::register$")
+        outs = I.call_fn(f_reg, [Ref(kf, 0, (), True), stake, Ref(vf, 0, ())], st)
+        bad = []
+        nacc = 0
+        for o in outs:
+            if o.kind != "return":
+                rep.inconcl("KeyRegistration::register: %s %s" % (o.kind, o.msg))
+                continue
+            d = o.value.discr
+            if not (isinstance(d, int) and d == 0):
+                if not isinstance(d, int):
+                    rep.inconcl("KeyRegistration::register: symbolic verdict")
+                continue
+            nacc += 1
+            post = o.state.mem[(kf, 0)]
+            names = [n for n, t in db.struct_fields("KeyRegistration")]
+            ents = post.fields[names.index("registration_entries")].fields
+            keys = post.fields[names.index("registered_keys_for_concatenation")].fields
+            has_entry = z3.Or([z3.And(e.fields[0].term == knew, e.fields[1] == stake) for e in ents]) if ents else z3.BoolVal(False)
+            has_key = z3.Or([k_.term == knew for k_ in keys]) if keys else z3.BoolVal(False)
+            kept = z3.And(z3.Or([z3.And(e.fields[0].term == k0, e.fields[1] == s0) for e in ents]) if ents else z3.BoolVal(False), z3.Or([k_.term == k0 for k_ in keys]) if keys else z3.BoolVal(False))
+            k1_asked_for_pop = all(True for ev in o.state.trace if ev[0] == "k1_verify")
+            cl = z3.And(VALIDATE(knew), K1(knew, pop) == 0, K2(knew, pop), knew != k0, has_entry, has_key, kept, z3.BoolVal(len(ents) == 2))
+            bad.append(z3.And(list(o.pc) + [z3.Not(cl)]))
+        ob = rep.add(core.Obligation("c07_stm_register_acceptance_conjunction", "smt",
+                                     "mithril-stm KeyRegistration::register Ok => key validates, BOTH halves of the proof of possession hold for THIS key, the key is not the one already registered, "
+                                     "and afterwards the registration holds (key, stake argument) next to the earlier entry", {"vccs": nacc, "paths": len(outs)}))
+        r = smt.check([z3.Or(bad)] if bad else [z3.BoolVal(False)], timeout_s=tmo, cross=True)
+        ob.solver_s = r.seconds
+        ob.status = "discharged" if r.status == "unsat" else "failed" if r.status == "sat" else "inconclusive"
+        if nacc == 0:
+            ob.status = "inconclusive"
+            rep.inconcl("stm register: no accepting path")
+        if r.status == "sat":
+            ev = lambda t: str(r.model.eval(t, model_completion=True))
+            ob.counterexample = {"key_validates": ev(VALIDATE(knew)), "k1_verdict": ev(K1(knew, pop)), "k2_pairing": ev(K2(knew, pop)), "same_as_registered_key": ev(knew == k0)}
+            failures.append(("stm_register_acceptance", ob))
+        rep.functions += sorted("%s -> %s" % (a, b) for a, b in I.calls_seen.items() if b.startswith("mir:"))
+    except Unencodable as e:
+        rep.inconcl("unencodable (stm registration): %s" % e)
+    except Exception as e:
+        rep.inconcl("stm registration part failed: %r" % e)
+    return failures
+
+
 def run(tier, seed):
     rep = core.Report("C07", tier, seed)
     rep.trusted_base = ["rustc nightly MIR", "mir2smt interpreter + oracle / map call models", "z3"]
@@ -265,6 +375,24 @@ def run(tier, seed):
         rep.functions += sorted("%s -> %s" % (a, b) for a, b in I.calls_seen.items())
     except Unencodable as e:
         rep.inconcl("unencodable: %s" % e)
+    stm_failures = stm_registration(rep, tmo)
+    k = 0
+    for name, ob in stm_failures:
+        k += 1
+        role = "c07-" + name
+        ob.role = role
+        native = {}
+        reproduced = False
+        try:
+            from checks.c01 import native_stm
+            native["pop_halves"] = native_stm("pop_halves")
+            reproduced = "VIOLATED" in native["pop_halves"]
+        except Exception as e:
+            native["error"] = str(e)
+        path = core.write_replay("C07", 10 + k, {"property": "C07", "role": role, "obligation": ob.name, "counterexample": ob.counterexample, "native_replay": native})
+        rep.violation(role, "%s: %s; native %s" % (name, ob.counterexample, native), path, reproduced)
+        if reproduced:
+            rep.traces_validated += 1
     k = 0
     for name, ob, model in failures:
         k += 1
